@@ -647,6 +647,10 @@ def check_negative_slice(ctx, fa):
             ctx.violation(rule, c, "negative Slice creates `%s` without maxlen: it keeps every value it is given instead of the |index| "
                           "values the documentation promises" % A.short(c, 50), construct="deque-unbounded:%s" % A.short(c, 60))
             continue
+        if isinstance(ml, ast.Constant) and ml.value == 0 and not isinstance(ml.value, bool):
+            # deque(it, maxlen=0): the consume idiom -- keeps nothing alive, whatever it is given
+            ctx.ok(rule, c, "deque(..., maxlen=0) keeps no value")
+            continue
         bounds = resolve_bound(fn, ml, ctor=ctor)
         unknown = sorted(b for b in bounds if b.startswith("?"))
         ctx.check(rule, not unknown, c, "negative Slice bounds `%s` by `%s`, which is not -start/-stop (%s): more (or fewer) values than "
